@@ -31,7 +31,8 @@ class RunnerBasics(Harness):
         "quick": "(markets,agents,hft,steps) in {(1,2,0,2) limit orders, (1,2,0,1) limit+market+cancel, "
                  "(1,1,1,1), (2,2,0,1), batch clearing after a 1-step no-execution session} plus scripted families: "
                  "HFT sweep of two resting orders, HFT batch of two items, cancels of filled/expired orders, two "
-                 "markets hit in any order with two items per consultation, a run on plain python numbers with the prices 0, 0.4 and 2",
+                 "markets hit in any order with two items per consultation, a run on plain python numbers with the prices 0, 0.4 and 2, "
+                 "agents whose call-backs are bound on the instance in setup()",
         "thorough": "adds (1,3,0,1) with limit and market orders and (2,2,0,2) with limit orders",
     }
 
@@ -47,6 +48,9 @@ class RunnerBasics(Harness):
             {"M": 2, "A": 2, "H": 0, "S": 1, "acts": L, "pre": 0, "cap": 2},
             {"M": 1, "A": 2, "H": 0, "S": 1, "acts": L, "pre": 1, "cap": 2},
             {"M": 1, "A": 1, "H": 0, "S": 2, "acts": LM, "pre": 0, "cap": 1},
+            # agents whose call-backs are bound on the instance in setup()
+            {"M": 1, "A": 2, "H": 0, "S": 1, "acts": ["none", "limit", "cancel"], "pre": 1, "cap": 2, "late": True,
+             "script": "late"},
             # two resting sells from a no-execution step, then an HFT buyer sweeping them in its own branch
             {"M": 1, "A": 2, "H": 1, "S": 1, "acts": L, "pre": 1, "cap": 2, "script": "hft-sweep"},
             # an HFT batch of two items (order/cancel) with a fill after the first one
@@ -85,6 +89,8 @@ class RunnerBasics(Harness):
             extra = {"HALT": {"class": "TradingHaltRule", "targetMarkets": ["M0"], "triggerChangeRate": 0.1,
                               "haltingTimeLength": 1}}
         st = rn.base_settings(n_agents=case["A"], n_hft=case["H"], sessions=sessions, markets=markets, extra=extra)
+        if case.get("late"):
+            st["A"]["class"] = "LateBoundAgent"
         menu = {"acts": case["acts"], "ttl": case.get("ttl", [None])}
         sc = case.get("script")
         if sc == "hft-sweep":       # agents 0,1 normal (sell at t=0, may sell again at t=1), agent 2 HFT (buys at t=1)
@@ -115,6 +121,9 @@ class RunnerBasics(Harness):
             menu = {"vol_fixed": 1, "price_set": [0, 0.4, 2], "ttl": [None],
                     "acts_by_time": {"0": ["limit"], "1": ["none", "limit", "cancel"]},
                     "per_agent": {"0": {"side": "B"}, "1": {"side": "S"}}}
+        elif sc == "late":     # a buyer and a seller quote one unit at t=0 (no execution), may cancel or quote again at t=1
+            menu = {"vol_fixed": 1, "price_hi": 1000, "per_agent": {"0": {"side": "B"}, "1": {"side": "S"}},
+                    "acts_by_time": {"0": ["limit"], "1": ["none", "limit", "cancel"]}}
         elif sc == "two-markets":
             menu = {"vol_fixed": 1, "max_orders": 2, "acts": ["none", "limit"],
                     "per_agent": {"0": {"side": "B"}, "1": {"side": "S"}}}
